@@ -65,6 +65,8 @@ class CompressedFileHandler(FileHandler):
                 self.entry.encodedmimetype = None
                 self.entry.realencoding = self.entry.encoding
                 self.entry.encoding = None
+                # The decompressed document is not the size of the file.
+                self.entry.size = None
                 self.entry.type = self.entry.guesstype()
         return self.entry
 
